@@ -606,8 +606,8 @@ func (w *World) UnitKeys() []string {
 		if s.Kind == "closure" {
 			continue // verified inlined into the parent
 		}
-		if f := w.Funcs[k]; f != nil && f.Parent() != nil && len(f.FreeVars) > 0 {
-			continue // closures with captured variables are verified inlined into the parent
+		if f := w.Funcs[k]; f != nil && f.Parent() != nil && len(f.FreeVars) > 0 && !closureEscapes(f) {
+			continue // closures with captured variables that the parent calls are verified inlined into the parent
 		}
 		ks = append(ks, k)
 	}
@@ -754,4 +754,36 @@ func qualifiedCalls(e spec.Expr) []string {
 	}
 	walk(e)
 	return out
+}
+
+// closureEscapes reports whether a function literal is stored or handed to code that is not inlined (e.g. a cobra
+// RunE field): such a closure is verified on its own, with its captured variables as arbitrary inputs.
+func closureEscapes(f *ssa.Function) bool {
+	p := f.Parent()
+	if p == nil {
+		return false
+	}
+	for _, b := range p.Blocks {
+		for _, in := range b.Instrs {
+			mc, ok := in.(*ssa.MakeClosure)
+			if !ok || mc.Fn != f {
+				continue
+			}
+			for _, r := range *mc.Referrers() {
+				ci, ok := r.(ssa.CallInstruction)
+				if !ok {
+					return true
+				}
+				c := ci.Common()
+				if c.Value == mc {
+					continue // called (or deferred) directly
+				}
+				if callee := c.StaticCallee(); callee != nil && (isMapsIterate(callee) || strings.HasPrefix(qualifiedName(callee), "sort.Slice")) {
+					continue
+				}
+				return true
+			}
+		}
+	}
+	return false
 }
